@@ -207,7 +207,8 @@ func execute(kind, path string, options map[string]string) execOut {
 		return ex
 	}
 	col := &nodeh.Collector{}
-	res := nodeh.RunNodeCtx(ctx, node, col, nil, 60*time.Second)
+	// hostile consumer: appends to / overwrites every record it was handed (after the collector copied it)
+	res := nodeh.RunNodeCtx(ctx, fileh.Hostile(node), col, nil, 60*time.Second)
 	for _, o := range col.Snapshot() {
 		if !o.IsWatermark {
 			ex.recs = append(ex.recs, o.Record.Values)
@@ -616,6 +617,7 @@ type csvCase struct {
 	devs    []string
 	trickyN int
 	shared  bool // shared-text file (shared.go)
+	big     bool // big-integer file (big.go)
 	tsv     bool
 }
 
@@ -680,6 +682,15 @@ func runCSVCase(c *core.Ctx, rng *rand.Rand, id string) {
 		cs = genSharedCSVCase(rng, id, k, true)
 		kind = "tsv"
 		c.Count("inproc/tsv/shared_text_files", 1)
+	case strings.HasPrefix(id, "csvbig-"):
+		k, _ := strconv.Atoi(strings.TrimPrefix(id, "csvbig-"))
+		cs = genBigCSVCase(rng, id, k, false)
+		c.Count("inproc/csv/big_integer_files", 1)
+	case strings.HasPrefix(id, "tsvbig-"):
+		k, _ := strconv.Atoi(strings.TrimPrefix(id, "tsvbig-"))
+		cs = genBigCSVCase(rng, id, k, true)
+		kind = "tsv"
+		c.Count("inproc/tsv/big_integer_files", 1)
 	default:
 		cs = genCSVCase(rng, id)
 	}
@@ -784,6 +795,14 @@ func runCSVCase(c *core.Ctx, rng *rand.Rand, id string) {
 				} else {
 					addClass("csv:type-mismatch", desc)
 				}
+			default:
+				// the value matches the type; it must also be a reading of the cell text the type admits
+				// (the Int only if the text fits int64, else the Float where admitted, else the String ...)
+				ds := &fileh.DiffSet{}
+				fileh.CompareCSV(fileh.Row(i).Col(f.Name), t, rec[j], cell, ds)
+				if !ds.Empty() {
+					addClass("csv:value-not-what-the-cell-denotes", desc)
+				}
 			}
 		}
 	}
@@ -794,7 +813,9 @@ func runCSVCase(c *core.Ctx, rng *rand.Rand, id string) {
 	}
 	for k, whats := range classes {
 		what := "a value does not match the reported column type: "
-		if strings.Contains(k, "unrepresentable") || strings.Contains(k, "empty-cell") {
+		if strings.Contains(k, "denotes") {
+			what = "a value matches the column type but is not a reading of the cell text that the type admits: "
+		} else if strings.Contains(k, "unrepresentable") || strings.Contains(k, "empty-cell") {
 			what = "a row that cannot be represented in the inferred schema was converted instead of reported as an error: "
 		}
 		c.Violation(k, what+strings.Join(whats, "; "), replay)
@@ -820,6 +841,10 @@ func Run(c *core.Ctx) core.FinishOpts {
 	for k := range sharedVariants() {
 		ids = append(ids, fmt.Sprintf("csvshared-%d", k), fmt.Sprintf("tsvshared-%d", k))
 	}
+	// big-integer files (big.go)
+	for k := 0; k < bigVariants(); k++ {
+		ids = append(ids, fmt.Sprintf("csvbig-%d", k), fmt.Sprintf("tsvbig-%d", k))
+	}
 	core.Parallel(len(ids), 8, func(k int) {
 		id := ids[k]
 		if c.Only != "" && c.Only != id {
@@ -837,7 +862,7 @@ func Run(c *core.Ctx) core.FinishOpts {
 		Level: "exploration",
 		Rule: "files = 1-4 columns of a kind (scalar, nullable, list, object, mixed, tricky numeric spellings); 1..120 conforming rows (some files lack a key in some preview rows), then 0..70 later rows of which " +
 			"2/3 deviate when they lie beyond the 100-row preview (other kind, null, missing key, object with new/missing field, non-time in a Time column, list element of another kind, empty CSV cell, " +
-			"cells on which strconv and fastfloat disagree); plus, in both tiers, CSV and TSV files with two union-typed columns (every ordered pair of Int|String, Float|String, Boolean|Int|String, Time|String, Boolean|String) that share cell texts beyond the preview in both row orders; CLI leg: --describe -o json vs -o json; non-trivial = more than 100 rows, or a deviation, or a tricky cell; distinct by file content",
+			"cells on which strconv and fastfloat disagree); plus, in both tiers, CSV and TSV files with two union-typed columns (every ordered pair of Int|String, Float|String, Boolean|Int|String, Time|String, Boolean|String) that share cell texts beyond the preview in both row orders, and files with 19-25 digit integer literals around +-2^63 in Int-only columns (beyond the preview) and in Int|Float / Int|String union columns; every in-process run has a hostile consumer that appends to and overwrites the records it was handed; CLI leg (also tumble / max_diff_watermark directly over json/csv files): --describe -o json vs -o json; non-trivial = more than 100 rows, or a deviation, or a tricky cell; distinct by file content",
 		Floor: c.Pick(100, 3000),
 		Assumptions: []string{"representable = some alternative of the reported column type admits the cell (numbers/bools/times as strconv / time.Parse read them, as the inference does)",
 			"own matches(value, type); own parser of the type strings --describe prints", "a JSON column that is [] in the whole preview and non-empty later is exercised only through the CLI (it kills a worker goroutine)"},
